@@ -751,6 +751,13 @@ func (p *Posix) createObjVersion(bucket, key string, size int64, acc auth.Accoun
 		return versionPath, err
 	}
 
+	// The archive time orders the versions of a key (listing, and which one
+	// a delete of the latest version re-exposes). File timestamps taken by
+	// the kernel are only as fine as its clock tick, so two changes of a key
+	// within one tick would be archived with equal times: stamp explicitly.
+	now := time.Now()
+	_ = os.Chtimes(versionPath, now, now)
+
 	return versionPath, nil
 }
 
